@@ -13,7 +13,9 @@ TRows == {Row([a |-> NumV(1), g |-> NumV(0), s |-> StrV(<<120>>), o |-> ObjV([k 
           Row([a |-> NumV(3), g |-> NumV(1), s |-> StrV(<<121>>), o |-> ObjV([k |-> NumV(2)]), n |-> NArr(<<>>)]),
           Row([a |-> NumV(3), g |-> NumV(0), s |-> StrV(<<120>>), o |-> ObjV([k |-> NumV(2)]), n |-> NArr(<<3>>)])}
 URows == <<Row([c |-> NumV(3)]), Row([c |-> NumV(1)])>>
-Docs == {ObjV([x \in {"t", "u"} |-> IF x = "t" THEN ArrV(t) ELSE ArrV(URows)]) : t \in SeqsFromTo(TRows, 1, MaxRows)}
+\* a table whose join key is a number, NULL, or not there at all
+WRows == <<Row([c |-> NumV(3)]), Row([c |-> Null, d |-> NumV(1)]), Row([d |-> NumV(2)]), Row([c |-> NumV(1)])>>
+Docs == {ObjV([x \in {"t", "u", "w"} |-> IF x = "t" THEN ArrV(t) ELSE IF x = "u" THEN ArrV(URows) ELSE ArrV(WRows)]) : t \in SeqsFromTo(TRows, 1, MaxRows)}
 
 A == Col("a")
 S_ == Col("s")
@@ -77,6 +79,21 @@ Whole == {
   [pos |-> "exists",   q |-> SelQ(<<Star>>, Exists(NQ(<<Star>>, CmpE(">=", Col("p"), A))))],
   [pos |-> "insub",    q |-> SelQ(<<Star>>, InSub(A, [BaseQ EXCEPT !.sel = <<I(Col("c"), "")>>, !.from = Table(<<"<-", "u">>, "")]))],
   [pos |-> "limit",    q |-> [SelQ(<<Star>>, None) EXCEPT !.order = <<[key |-> <<"s">>, asc |-> FALSE], [key |-> <<"a">>, asc |-> TRUE]>>, !.limit = 2, !.offset = 1]],
+  \* DISTINCT followed by an ORDER BY that leaves ties (two distinct rows share s): no grouping, no join - the
+  \* sequence is the same on every evaluation, with and without a LIMIT cutting through the tie
+  [pos |-> "distinctorder", q |-> [SelQ(<<I(S_, ""), I(A, "")>>, None) EXCEPT !.distinct = TRUE, !.order = <<[key |-> <<"s">>, asc |-> TRUE]>>]],
+  [pos |-> "distinctorderlimit", q |-> [SelQ(<<I(S_, ""), I(A, "")>>, None) EXCEPT !.distinct = TRUE, !.order = <<[key |-> <<"s">>, asc |-> FALSE]>>, !.limit = 1]],
+  \* joins on a key that is NULL / missing in some rows, by the nested loop and by the hash path: what such keys match
+  \* is not claimed anywhere (the comparison of the specification is the engine's as far as the drift report goes),
+  \* that a repetition returns the same multiset is
+  [pos |-> "joinnull", q |-> [BaseQ EXCEPT !.from = [k |-> "join", type |-> "inner", kw |-> "", l |-> Table(<<"w">>, "y"), r |-> Table(<<"t">>, "x"),
+                                                    on |-> CmpE("<=", ColP(<<"x", "a">>), ColP(<<"y", "c">>))]]],
+  [pos |-> "joinnullinner2", q |-> [BaseQ EXCEPT !.from = [k |-> "join", type |-> "inner", kw |-> "", l |-> Table(<<"t">>, "x"), r |-> Table(<<"w">>, "y"),
+                                                    on |-> CmpE("!=", ColP(<<"x", "a">>), ColP(<<"y", "c">>))]]],
+  [pos |-> "joinnullleft", q |-> [BaseQ EXCEPT !.from = [k |-> "join", type |-> "left", kw |-> "", l |-> Table(<<"t">>, "x"), r |-> Table(<<"w">>, "y"),
+                                                    on |-> CmpE(">", ColP(<<"x", "a">>), ColP(<<"y", "c">>))]]],
+  [pos |-> "joinnullhash", q |-> [BaseQ EXCEPT !.from = [k |-> "join", type |-> "right", kw |-> "", l |-> Table(<<"t">>, "x"), r |-> Table(<<"w">>, "y"),
+                                                    on |-> CmpE("=", ColP(<<"x", "a">>), ColP(<<"y", "c">>))]]],
   [pos |-> "spin",     q |-> SelQ(<<I(A, ""), I(FnQ("spin", "concat", <<S_, X>>), "v"), I(FnQ("spinasync", "concat", <<S_, X>>), "w")>>, None)],
   [pos |-> "asyncmix", q |-> SelQ(<<I(FnQ("async", "concat", <<S_, X>>), "v"), I(A, ""), I(FnQ("async", "concat", <<A, X>>), "w")>>, None)] }
 
